@@ -4,6 +4,7 @@ go 1.18
 
 require (
 	cuelang.org/go v0.6.0
+	github.com/fatih/structtag v1.2.0
 	github.com/pelletier/go-toml v1.9.5
 	github.com/spf13/pflag v1.0.5
 	github.com/vimeo/dials v0.0.0
@@ -14,7 +15,6 @@ require (
 require (
 	github.com/cockroachdb/apd/v3 v3.2.1 // indirect
 	github.com/davecgh/go-spew v1.1.1 // indirect
-	github.com/fatih/structtag v1.2.0 // indirect
 	github.com/fsnotify/fsnotify v1.8.0 // indirect
 	github.com/google/uuid v1.6.0 // indirect
 	github.com/mpvl/unique v0.0.0-20150818121801-cbe035fff7de // indirect
